@@ -200,6 +200,7 @@ impl Machine {
         }
         json!({})
       }
+      "law" => json!({}),
       "source" => {
         json!({"t": bytes_json(self.reg(step, "r").as_source().source().as_bytes())})
       }
